@@ -51,9 +51,30 @@ func Load(path string) (*Replay, error) {
 	return r, nil
 }
 
+var lastModelNow int64 = -1
+
+// modelNowNear returns the model clock reading nearest to the current
+// position in the value list (the previous one, else the next one).
+func modelNowNear() int64 {
+	if lastModelNow >= 0 {
+		return lastModelNow
+	}
+	for i := pos; cur != nil && i < len(cur.Values); i++ {
+		if cur.Values[i].Kind == "Now" {
+			return int64(cur.Values[i].Vals[0])
+		}
+	}
+	return 0
+}
+
 func next(kind string) []uint64 {
 	if cur == nil {
 		panic(Desync{"no replay loaded"})
+	}
+	// clock readings of the model are consumed by the real clock natively
+	for pos < len(cur.Values) && cur.Values[pos].Kind == "Now" && kind != "Now" {
+		lastModelNow = int64(cur.Values[pos].Vals[0])
+		pos++
 	}
 	if pos >= len(cur.Values) {
 		panic(Desync{fmt.Sprintf("replay exhausted at call %d (%s)", pos, kind)})
@@ -203,4 +224,11 @@ func (v *vctx) Err() error {
 		return context.Cause(v.Context)
 	}
 	return nil
+}
+
+// Instant: the model's instant, placed relative to the real clock the way it
+// was placed relative to the model's nearest clock reading.
+func Instant() time.Time {
+	v := int64(one("Instant"))
+	return time.Unix(time.Now().Unix()+(v-modelNowNear()), 0)
 }
